@@ -4,6 +4,7 @@ import (
 	"encoding/binary"
 	"errors"
 	"fmt"
+	"math"
 	"strings"
 )
 
@@ -152,10 +153,18 @@ func (aa ArchiveInfoList) validate() error {
 	}
 
 	off := metaSize + uint32(len(aa))*archiveInfoListSize
+	off64 := uint64(metaSize) + uint64(len(aa))*archiveInfoListSize
 	for i, a := range aa {
 		if err := a.validate(); err != nil {
 			return fmt.Errorf("invalid archive%v: %v", i, err)
 		}
+		if int64(a.secondsPerPoint)*int64(a.numberOfPoints) > math.MaxInt32 {
+			return fmt.Errorf("invalid archive%v: retention does not fit in 31 bits", i)
+		}
+		if off64 > math.MaxUint32 {
+			return fmt.Errorf("invalid archive%v: offset does not fit in 32 bits", i)
+		}
+		off64 += uint64(a.numberOfPoints) * pointSize
 		if a.offset != off {
 			return fmt.Errorf("invalid archive%v: invalid offset got:%v, want:%v", i, a.offset, off)
 		}
